@@ -38,7 +38,16 @@ func flatten(t types.Type) []Leaf {
 	return l
 }
 
+var intmapType = types.NewNamed(types.NewTypeName(0, nil, "intmap", nil), types.NewStruct(nil, nil), nil)
+var setType = types.NewNamed(types.NewTypeName(0, nil, "set", nil), types.NewStruct(nil, nil), nil)
+
 func flatten0(t types.Type) []Leaf {
+	if t == setType {
+		return []Leaf{{"", arrSortK(sInt, sBool), nil, lkPlain}}
+	}
+	if t == intmapType {
+		return []Leaf{{"", arrSortK(sInt, sInt), nil, lkPlain}}
+	}
 	switch u := t.Underlying().(type) {
 	case *types.Basic:
 		switch {
